@@ -1,6 +1,6 @@
 (* C07/Witness.v — non-vacuity examples; the regression inputs of the repaired defects, evaluated on the
    model of the code as it is now and on the models of the old rules (what each fix bought). *)
-From Verif Require Import Common.Base C07.Val C07.Model C07.Proofs C07.Proofs2.
+From Verif Require Import Common.Base C07.Val C07.Model C07.Proofs C07.Proofs2 C07.Harness C07.Proofs3.
 
 (* capacity re-use: map with 3 entries, one removed, then a 3-entry map copied into it (the old F7
    scenario), then both sides mutated *)
@@ -76,3 +76,16 @@ Proof. vm_compute. eexists. eexists. eexists. repeat split; try reflexivity. dis
 (* the addresses of the two handles after w_prog (capacity re-use, a removed entry, a copy) are distinct *)
 Example w_prog_ids : all_ids (fst (run_c common_schema cstate0 w_prog)) = [3; 6].
 Proof. vm_compute. reflexivity. Qed.
+
+(* non-vacuity of the history theorems: a program none of whose steps writes handle 0 (hypothesis of independent_forever),
+   two diverging paths (hypothesis of independent_within_handle), an observed case that conforms (spec_ok) and one that
+   does not (what C07-m12 produced: AppendEmpty resurrecting a stale element) *)
+Example w_no_write_0 : Forall (fun o => ~ writes o 0) [OLocal 1 [] (LPut 0 1 2 10 1); OCopySlot (TSl 1) 0 [] 0 1 [] 0].
+Proof. repeat constructor; simpl; discriminate. Qed.
+Example w_diverge : diverge [PS 0 0; PR 0] [PS 0 1; PR 0] = true /\ diverge [PS 0 0] [PS 0 0; PR 0] = false.
+Proof. split; reflexivity. Qed.
+Example w_spec_ok :
+  spec_ok ([ONew 3; OLocal 0 [] (LAppend 0 0 1)], [(0, [(0, [VS []])], []); (0, [(0, [VS [[VI 0 0]]])], [])]) = true /\
+  spec_ok ([ONew 3; OLocal 0 [] (LAppend 0 0 1)], [(0, [(0, [VS []])], []); (0, [(0, [VS [[VI 2 7]]])], [])]) = false /\
+  spec_verdict ([ONew 3; OLocal 0 [] (LAppend 0 0 1)], [(0, [(0, [VS []])], []); (0, [(0, [VS [[VI 2 7]]])], [])]) = Some (1, 7, 0).
+Proof. vm_compute. repeat split. Qed.
